@@ -1555,20 +1555,20 @@ class UTPM(Ring, RawAlgorithmsMixIn):
 
         try:
             PIV,L,U = cls.lu2(x)
-        except numpy.linalg.LinAlgError:
-            # singular zeroth coefficient: xbar += ybar adj(x)^T
-            xbar += ybar * cls._det_adj(x)[1].T
-            return xbar
-        d   = cls.diag(U)
-        z   = cls.prod(d)
-        y   = cls.piv2det(PIV) * z
+            d   = cls.diag(U)
+            z   = cls.prod(d)
+            y   = cls.piv2det(PIV) * z
 
-        zbar   = cls.piv2det(PIV) * ybar
-        dbar   = cls.pb_prod(zbar, d, z)
-        PIVbar = PIV.zeros_like()
-        Lbar   = L.zeros_like()
-        Ubar   = cls.pb_diag(dbar, U, d)
-        cls.pb_lu2(PIVbar, Lbar, Ubar, x, PIV, L, U, out=(xbar,))
+            zbar   = cls.piv2det(PIV) * ybar
+            dbar   = cls.pb_prod(zbar, d, z)
+            PIVbar = PIV.zeros_like()
+            Lbar   = L.zeros_like()
+            Ubar   = cls.pb_diag(dbar, U, d)
+            cls.pb_lu2(PIVbar, Lbar, Ubar, x, PIV, L, U, out=(xbar,))
+        except numpy.linalg.LinAlgError:
+            # singular zeroth coefficient (raised before xbar is touched):
+            # xbar += ybar adj(x)^T
+            xbar += ybar * cls._det_adj(x)[1].T
         return xbar
 
     @classmethod
